@@ -32,9 +32,17 @@ Inductive tie_sched := BothDone | DirectFirst | IndirectFirst | IndirectFirstCon
   (* IndirectFirstConnecting: the indirect one is seen first while the direct attempt, due at the same instant, is still inside
      open_connection (its completion callback has not run yet): it is cancelled there *)
 
+(* the request is cancelled at the very instant it would be over (cancel s = Some t with t = that instant, [ctie] says how the
+   event loop orders things): the cancellation lands before the finishing attempt is done | after that attempt's task
+   is done but before the request task resumed from its wait | after the request returned (no effect) *)
+Inductive cancel_sched := CancelEarly | CancelAfterAttempt | CancelAwaitingLoser | CancelLate.
+  (* CancelAwaitingLoser: race mode, the request task has resumed with the winner's connection, cancelled the loser and is
+     awaiting it (or disconnecting a second success) when the cancellation lands *)
+
 Record script := mkS {
   md : mode; ad : addr; ad_delay : Z; dr : dres; d_delay : Z; ir : ires; i_delay : Z; cancel : option Z;
-  sched : tie_sched }.
+  sched : tie_sched; ctie : option cancel_sched }.
+(* cancel s = Some x without ctie: x stands for x + 1/2 (never the instant of another event) *)
 
 Inductive aout := Succ (t : Z) | Fail (t : Z) | Never.
 
@@ -194,13 +202,33 @@ Definition cancelled_at (s : script) (x : Z) : final :=
           (running_at i x || ind_fail_residue s) (running_at d x || running_at i x)
   end.
 
+(* cancelled in the instant t in which it would be over.  [after]: an attempt task is already done with a connection:
+   race mode's handler has to disconnect it (fallback mode has no attempt tasks: the request task itself is cancelled
+   inside the attempt, whose own handlers close the connection) *)
+Definition cancelled_tie (s : script) (t : Z) (after : bool) : final :=
+  let g := cancelled_at s t in
+  mkF OCancelled (Some t) (r_connecting g) (waiters g) (orphans g)
+      (after && match md s with Race => negb RACE_CANCEL_DISCONNECTS_FINISHED | Fallback => negb ATTEMPT_CLOSES_ON_CANCEL end) false.
+
 Definition result (s : script) : final :=
   let f := no_cancel s in
   match cancel s with
   | None => f
   | Some x =>
       match at_time f with
-      | Some t => if x <? t then cancelled_at s x else f
+      | Some t =>
+          if x <? t then cancelled_at s x
+          else if x =? t then
+            match ctie s with
+            | Some CancelEarly => cancelled_tie s t false
+            | Some CancelAfterAttempt => cancelled_tie s t true
+            | Some CancelAwaitingLoser =>
+                let g := cancelled_tie s t true in
+                mkF OCancelled (Some t) (r_connecting g) (waiters g) (orphans g)
+                    (r_open g || match md s with Race => negb RACE_CANCEL_COVERS_WINNER_PATH | Fallback => false end) false
+            | Some CancelLate | None => f
+            end
+          else f
       | None => cancelled_at s x
       end
   end.
